@@ -7,6 +7,7 @@ obligation of the *machinery* (reported as such, never as a violation of the pro
 import itertools
 import os
 import subprocess
+import urllib.parse
 
 from bodies import enc
 from common import LEAN_DIR, lake_build
@@ -65,6 +66,16 @@ def grid_collate():
     return [(n, a, b, k) for n in names for a in ss for b in ss for k in ks]
 
 
+def grid_unescape():
+    alpha = ["a", "\\", ",", "n", "N", ";", "\n", " ", "é"]
+    out = [""]
+    for n in (1, 2, 3):
+        for t in itertools.product(alpha, repeat=n):
+            out.append("".join(t))
+    out += ["Lunch\\, with Bob", "x\\,y,z", "a\\\\", "a\\", "\\\\n", "a,b\\;c\\nd", ",,", "a\\N\\n"]
+    return out
+
+
 def _pybool(f):
     try:
         return "1" if f() else "0"
@@ -91,6 +102,42 @@ def cases(modules):
             out.append(("web.create_strong_etag", "cse %s" % enc(t), enc(create_strong_etag(t)), (t,)))
         for t in grid_tags() + [None]:
             out.append(("web.extract_strong_etag", "xse %s" % enc(t), enc(extract_strong_etag(t)), (t,)))
+    if "Unescape" in modules:
+        from xandikos.icalendar import _unescape_text
+        for t in grid_unescape():
+            for sp in (False, True):
+                try:
+                    want = "=" + ",".join(urllib.parse.quote(p, safe="") for p in _unescape_text(t, sp))
+                except Exception as e:   # noqa: BLE001
+                    want = "raise:" + type(e).__name__
+                out.append(("icalendar._unescape_text", "unesc %s %s" % (enc(t), "1" if sp else "0"), want, (t, sp)))
+    if "Wellknown" in modules:
+        from xandikos.wsgi_helpers import WellknownRedirector
+        wks = ["/.well-known/caldav", "/.well-known/carddav"]
+        pairs = set()
+        for wk in wks:
+            for k in range(len(wk) + 1):
+                pairs.add((wk[:k], wk[k:]))
+            pairs |= {("", wk + "/"), ("", "/" + wk), ("/dav", wk), ("", wk + "/.."), ("", wk.replace("known/", "known//")),
+                      ("", "/x/.." + wk), (wk, "/"), ("", wk.upper()), ("", wk + "x")}
+        pairs |= {("", "/"), ("/dav", "/user/"), ("", "/.well-known"), ("", "/.well-known/"), ("", "/.well-known/other"), ("", "")}
+        for sc, pi in sorted(pairs):
+            hit = {}
+
+            def inner(environ, start_response):
+                hit["inner"] = True
+                return []
+
+            def sr(status, headers):
+                hit["status"] = status
+                hit["headers"] = headers
+            try:
+                WellknownRedirector(inner, "/root/")({"SCRIPT_NAME": sc, "PATH_INFO": pi}, sr)
+                want = "1" if (not hit.get("inner") and str(hit.get("status", "")).startswith("30")
+                               and ("Location", "/root/") in hit.get("headers", [])) else "0"
+            except Exception as e:   # noqa: BLE001
+                want = "raise:" + type(e).__name__
+            out.append(("wsgi_helpers.WellknownRedirector.__call__", "wk %s %s" % (enc(sc), enc(pi)), want, (sc, pi)))
     if "PathMap" in modules:
         from xandikos.web import XandikosBackend
         for root, rel in grid_mapfs():
@@ -130,7 +177,10 @@ def validate(chk, modules):
     for (fn, line, want, args), g in zip(cs, got):
         per[fn] = per.get(fn, 0) + 1
         # compare decoded texts (the two sides may percent-encode differently)
-        same = (g == want) or (g[:1] in "=~" and want[:1] in "=~" and dec(g) == dec(want))
+        same = (g == want) or (g[:1] in "=~" and want[:1] in "=~" and
+                               [dec("=" + x) for x in g[1:].split(",")] == [dec("=" + x) for x in want[1:].split(",")]
+                               if fn == "icalendar._unescape_text" else
+                               g[:1] in "=~" and want[:1] in "=~" and dec(g) == dec(want))
         if not same:
             bad.setdefault(fn, []).append({"args": args, "python": want, "generated": g})
     info["status"] = "ok" if not bad else "disagreements"
@@ -152,7 +202,8 @@ def regen(chk, modules):
     good = []
     for m in modules:
         text, err = res[m]
-        funcs = ", ".join(s["func"] for s in translate.SPECS if s["module"] == m)
+        funcs = ", ".join(s["func"] for s in translate.SPECS + translate.SCAN_SPECS if s["module"] == m) or \
+            {"Wellknown": "WellknownRedirector.__call__, WELLKNOWN_DAV_PATHS"}.get(m, m)
         tr[funcs] = "ok" if text else "unavailable: " + err
         if err:
             chk.notes.append("translation of %s unavailable (%s): tied by correspondence only" % (funcs, err))
